@@ -10,7 +10,7 @@ use kurbo::common::solve_quadratic;
 use kurbo::{BezPath, CubicBez, Line, ParamCurve, ParamCurveExtrema, PathEl, PathSeg, Point, QuadBez, Rect, Shape};
 
 pub fn prop() -> Prop {
-    Prop { id: "C08", corr, laws, extra, law_budget: (250, 5000) }
+    Prop { id: "C08", corr, laws, extra, law_budget: (300, 9000) }
 }
 
 // ------------------------------------------------------------------ generators
@@ -139,8 +139,33 @@ fn quad_axis(r: &mut Rng) -> Vec<f64> {
     }
 }
 
-/// segments over-sampling the configurations the property names
+/// x * 2^k, exactly (two steps so that neither factor over/underflows)
+fn scale_pow2(x: f64, k: i32) -> f64 {
+    let k1 = k / 2;
+    x * 2f64.powi(k1) * 2f64.powi(k - k1)
+}
+
+fn scale_seg(s: &PathSeg, k: i32) -> PathSeg {
+    let f = |p: Point| Point::new(scale_pow2(p.x, k), scale_pow2(p.y, k));
+    match s {
+        PathSeg::Line(l) => PathSeg::Line(Line::new(f(l.p0), f(l.p1))),
+        PathSeg::Quad(q) => PathSeg::Quad(QuadBez::new(f(q.p0), f(q.p1), f(q.p2))),
+        PathSeg::Cubic(c) => PathSeg::Cubic(CubicBez::new(f(c.p0), f(c.p1), f(c.p2), f(c.p3))),
+    }
+}
+
+/// segments over-sampling the configurations the property names; one in ten is an exact
+/// power-of-two rescaling of a structured segment into the sub-normal / tiny / huge ranges
 fn gen_c08_seg(r: &mut Rng) -> PathSeg {
+    if r.chance(1, 10) {
+        let s = gen_c08_seg_unit(r);
+        let k = *r.pick(&[-1070, -1060, -1045, -1030, -1022, -1000, -800, -670, -660, 600, 900]);
+        return scale_seg(&s, k);
+    }
+    gen_c08_seg_unit(r)
+}
+
+fn gen_c08_seg_unit(r: &mut Rng) -> PathSeg {
     if r.chance(1, 4) {
         return gen_seg(r);
     }
@@ -318,7 +343,7 @@ fn extrema_tag(s: &PathSeg, got: &[f64]) -> (String, bool) {
 // ------------------------------------------------------------------ correspondence
 
 fn corr(r: &mut Rng, thorough: bool, o: &mut Out) {
-    let n = if thorough { 12000 } else { 900 };
+    let n = if thorough { 16000 } else { 900 };
     for _ in 0..n {
         let s = gen_c08_seg(r);
         let e = enc_seg(&s);
@@ -342,7 +367,7 @@ fn corr(r: &mut Rng, thorough: bool, o: &mut Out) {
         o.case(6, "bounding_box", e.clone(), rect_v(concrete_bbox(&s)), bb != ends, &btag);
         o.case(7, "bounding_box-linear-variant", e.clone(), rect_v(bb), bb != ends, &btag);
     }
-    let np = if thorough { 4000 } else { 300 };
+    let np = if thorough { 5000 } else { 300 };
     for _ in 0..np {
         let els = gen_c08_els(r, false);
         let e = enc_els(&els);
@@ -433,11 +458,43 @@ fn max_diff(p: &[f64]) -> f64 {
     p.windows(2).fold(0.0f64, |m, w| m.max((w[1] - w[0]).abs())) * (p.len() - 1) as f64
 }
 
-fn usable(s: &PathSeg) -> bool {
+/// The sampling oracles work on an exact power-of-two rescaling of the control polygon into
+/// [1, 2) (the extrema do not depend on the scale; a box scales with the polygon), so that they
+/// have head-room at every magnitude.  `sub`: the absolute rounding granularity of the
+/// implementation's own arithmetic near the sub-normal range, in rescaled units.
+/// Excluded: non-finite input and magnitudes above 1e300 (beyond f64::MAX / 2 the differences
+/// of control points, and `eval` itself, overflow).
+struct Norm {
+    xs: Vec<f64>,
+    ys: Vec<f64>,
+    kx: i32,
+    ky: i32,
+    subx: f64,
+    suby: f64,
+}
+
+/// each axis is rescaled on its own (a zero of x' does not depend on the scale of x)
+fn norm(s: &PathSeg) -> Option<Norm> {
     let (xs, ys) = ctrl(s);
     let m = max_abs(&xs).max(max_abs(&ys));
-    // the sampling oracles need head-room: no overflow in the differences, no sub-normal differences
-    m < 1e150 && (max_diff(&xs) == 0.0 || max_diff(&xs) > 1e-280) && (max_diff(&ys) == 0.0 || max_diff(&ys) > 1e-280)
+    if !m.is_finite() || m >= 1e300 {
+        return None;
+    }
+    let one = |v: &Vec<f64>| -> (Vec<f64>, i32, f64) {
+        let m = max_abs(v);
+        if m == 0.0 {
+            return (v.clone(), 0, 0.0);
+        }
+        let k = -(m.log2().floor() as i32);
+        (v.iter().map(|x| scale_pow2(*x, k)).collect(), k, 64.0 * scale_pow2(5e-324, k))
+    };
+    let (xs, kx, subx) = one(&xs);
+    let (ys, ky, suby) = one(&ys);
+    Some(Norm { xs, ys, kx, ky, subx, suby })
+}
+
+fn norm_rect(r: Rect, kx: i32, ky: i32) -> Rect {
+    Rect::new(scale_pow2(r.x0, kx), scale_pow2(r.y0, ky), scale_pow2(r.x1, kx), scale_pow2(r.y1, ky))
 }
 
 const NS: usize = 4096;
@@ -470,10 +527,11 @@ fn law_extrema_valid(a: &[f64]) -> Option<(String, String)> {
     if ex.windows(2).any(|w| !(w[0] <= w[1])) {
         return fail(&format!("extrema-sorted:{}", k), format!("{:?}: {:?} not ascending", s, ex));
     }
-    if !usable(&s) {
-        return None;
-    }
-    let (xs, ys) = ctrl(&s);
+    let nm = match norm(&s) {
+        Some(n) => n,
+        None => return None,
+    };
+    let (xs, ys) = (nm.xs, nm.ys);
     let (sx, sy) = (max_diff(&xs), max_diff(&ys));
     for &t in &ex {
         let (gx, gy) = (bern_deriv(&xs, t), bern_deriv(&ys, t));
@@ -491,12 +549,13 @@ fn law_extrema_valid(a: &[f64]) -> Option<(String, String)> {
 /// must be reported between them (slack 1e-6).
 fn law_extrema_complete(a: &[f64]) -> Option<(String, String)> {
     let (s, _) = dec_seg(a);
-    if !usable(&s) {
-        return None;
-    }
+    let nm = match norm(&s) {
+        Some(n) => n,
+        None => return None,
+    };
     let k = seg_kind(&s);
     let ex = s.extrema().to_vec();
-    let (xs, ys) = ctrl(&s);
+    let (xs, ys) = (nm.xs, nm.ys);
     for (axis, p) in [("x", &xs), ("y", &ys)] {
         let sc = max_diff(p);
         if sc == 0.0 {
@@ -544,12 +603,13 @@ fn law_ranges_monotone(a: &[f64]) -> Option<(String, String)> {
     if rg != want {
         return fail(&format!("ranges-structure:{}", k), format!("{:?}: ranges {:?}, extrema {:?}", s, rg, ex));
     }
-    if !usable(&s) {
-        return None;
-    }
-    let (xs, ys) = ctrl(&s);
+    let nm = match norm(&s) {
+        Some(n) => n,
+        None => return None,
+    };
+    let (xs, ys) = (nm.xs, nm.ys);
     for (axis, p) in [("x", &xs), ("y", &ys)] {
-        let slack = 64.0 * f64::EPSILON * max_abs(p) + 1e-9 * max_diff(p) * 1e-6;
+        let slack = 64.0 * f64::EPSILON * max_abs(p) + 1e-15 * max_diff(p);
         for &(a0, a1) in &rg {
             if !(a0 <= a1) {
                 return fail(&format!("ranges-structure:{}", k), format!("{:?}: range {}..{}", s, a0, a1));
@@ -582,12 +642,14 @@ fn law_bbox(a: &[f64]) -> Option<(String, String)> {
     if bb != cb {
         return fail(&format!("bbox-dispatch:{}", k), format!("{:?}: PathSeg {:?} concrete {:?}", s, bb, cb));
     }
-    if !usable(&s) {
-        return None;
-    }
-    let (xs, ys) = ctrl(&s);
-    for (axis, p, lo, hi) in [("x", &xs, bb.x0, bb.x1), ("y", &ys, bb.y0, bb.y1)] {
-        let round = 64.0 * f64::EPSILON * max_abs(p);
+    let nm = match norm(&s) {
+        Some(n) => n,
+        None => return None,
+    };
+    let bb = norm_rect(bb, nm.kx, nm.ky);
+    let (xs, ys) = (nm.xs, nm.ys);
+    for (axis, p, lo, hi, sub) in [("x", &xs, bb.x0, bb.x1, nm.subx), ("y", &ys, bb.y0, bb.y1, nm.suby)] {
+        let round = 64.0 * f64::EPSILON * max_abs(p) + sub;
         // between two samples the coordinate moves beyond them by at most |f''| h^2 / 8
         let res = 6.0 * max_diff(p) / (NS as f64 * NS as f64);
         let (mut mn, mut mx) = (f64::INFINITY, f64::NEG_INFINITY);
@@ -688,12 +750,61 @@ fn law_path(a: &[f64]) -> Option<(String, String)> {
     None
 }
 
+/// The regime of known finding C08-tiny-derivative, and nothing else: a cubic with a coordinate
+/// whose derivative has a NON-zero leading coefficient `a` for which `solve_quadratic` cannot form
+/// the scaled coefficients (`c * a.recip()` or `b * a.recip()` not finite: `a` sub-normal) and so
+/// solves the linear equation although the quadratic term matters. Law violations on such inputs
+/// get the class prefix `tiny-derivative:`; every other input keeps the plain class.
+fn tiny_regime(s: &PathSeg) -> bool {
+    if let PathSeg::Cubic(c) = s {
+        let (d0, d1, d2) = (c.p1 - c.p0, c.p2 - c.p1, c.p3 - c.p2);
+        let one = |e0: f64, e1: f64, e2: f64| {
+            let a = e0 - 2.0 * e1 + e2;
+            let b = 2.0 * (e1 - e0);
+            a != 0.0 && a.abs() < 1e-300 && (!(e0 * a.recip()).is_finite() || !(b * a.recip()).is_finite())
+        };
+        one(d0.x, d1.x, d2.x) || one(d0.y, d1.y, d2.y)
+    } else {
+        false
+    }
+}
+
+/// Known-finding violations are reported at most 40 times per run, so that they cannot use up
+/// the harness's cap on recorded violations and crowd out a different failure.
+static TINY_REPORTED: std::sync::atomic::AtomicUsize = std::sync::atomic::AtomicUsize::new(0);
+
+fn with_regime(a: &[f64], r: Option<(String, String)>) -> Option<(String, String)> {
+    match r {
+        Some((class, desc)) if tiny_regime(&dec_seg(a).0) => {
+            if TINY_REPORTED.fetch_add(1, std::sync::atomic::Ordering::Relaxed) < 40 {
+                Some((format!("tiny-derivative:{}", class), desc))
+            } else {
+                None
+            }
+        }
+        other => other,
+    }
+}
+
+fn law_extrema_valid_r(a: &[f64]) -> Option<(String, String)> {
+    with_regime(a, law_extrema_valid(a))
+}
+fn law_extrema_complete_r(a: &[f64]) -> Option<(String, String)> {
+    with_regime(a, law_extrema_complete(a))
+}
+fn law_ranges_monotone_r(a: &[f64]) -> Option<(String, String)> {
+    with_regime(a, law_ranges_monotone(a))
+}
+fn law_bbox_r(a: &[f64]) -> Option<(String, String)> {
+    with_regime(a, law_bbox(a))
+}
+
 fn laws() -> Vec<Law> {
     vec![
-        Law { name: "extrema_valid", gen: g_seg, check: law_extrema_valid, weight: 4 },
-        Law { name: "extrema_complete", gen: g_seg, check: law_extrema_complete, weight: 3 },
-        Law { name: "ranges_monotone", gen: g_seg, check: law_ranges_monotone, weight: 2 },
-        Law { name: "bbox_contains_tight", gen: g_seg, check: law_bbox, weight: 3 },
+        Law { name: "extrema_valid", gen: g_seg, check: law_extrema_valid_r, weight: 4 },
+        Law { name: "extrema_complete", gen: g_seg, check: law_extrema_complete_r, weight: 3 },
+        Law { name: "ranges_monotone", gen: g_seg, check: law_ranges_monotone_r, weight: 2 },
+        Law { name: "bbox_contains_tight", gen: g_seg, check: law_bbox_r, weight: 3 },
         Law { name: "path_bbox_control_box", gen: g_els, check: law_path, weight: 2 },
     ]
 }
@@ -709,10 +820,10 @@ fn extra(_r: &mut Rng, thorough: bool, o: &mut Out) {
     let mut n = 0u64;
     let run_all = |args: &[f64], o: &mut Out| {
         for (name, f) in [
-            ("extrema_valid", law_extrema_valid as fn(&[f64]) -> Option<(String, String)>),
-            ("extrema_complete", law_extrema_complete),
-            ("ranges_monotone", law_ranges_monotone),
-            ("bbox_contains_tight", law_bbox),
+            ("extrema_valid", law_extrema_valid_r as fn(&[f64]) -> Option<(String, String)>),
+            ("extrema_complete", law_extrema_complete_r),
+            ("ranges_monotone", law_ranges_monotone_r),
+            ("bbox_contains_tight", law_bbox_r),
         ] {
             o.oracle_eval(name);
             if let Some((class, desc)) = f(args) {
@@ -739,5 +850,28 @@ fn extra(_r: &mut Rng, thorough: bool, o: &mut Out) {
         }
     }
     o.notes.push(format!("small-scope sweep: {} grid segments through the four segment laws", n));
+    // the scale-dependence witness (C08_pinned_extrema_scale_refuted) and its rescalings:
+    // x' = 18 (6 t^2 - 6 t + 1) * 2^k, y' = 48 (t - 1/4)(t - 3/4) * 2^k
+    let mut fails = Vec::new();
+    for k in [-1070, -1060, -1045, -1030, -1024, -1000, -700, -600, 0, 600] {
+        let f = |v: f64| scale_pow2(v, k);
+        let w = [3.0, 0.0, 0.0, f(3.0), f(3.0), f(-3.0), f(-2.0), 0.0, f(1.0)];
+        let c = CubicBez::new((w[1], w[2]), (w[3], w[4]), (w[5], w[6]), (w[7], w[8]));
+        let ex = c.extrema().to_vec();
+        let want = [0.21132486540518713, 0.25, 0.75, 0.7886751345948129];
+        let ok = ex.len() == 4 && ex.iter().zip(want.iter()).all(|(a, b)| (a - b).abs() < 1e-12);
+        if !ok {
+            fails.push(format!("2^{}: {:?}", k, ex));
+        }
+        run_all(&w, o);
+    }
+    o.known(
+        "C08-tiny-derivative",
+        !fails.is_empty(),
+        format!(
+            "CubicBez (0,0),(3,3),(-3,-2),(0,1) scaled by 2^k must report extrema [0.2113, 0.25, 0.75, 0.7887] for every k; wrong for {}",
+            if fails.is_empty() { "none".to_string() } else { fails.join("; ") }
+        ),
+    );
     let _ = Line::new((0.0, 0.0), (1.0, 1.0));
 }
